@@ -9,12 +9,12 @@ OFF_OK = {"ok", "cl 0", "ctx none", "elapsed 0", "recs -", "rep none", "stats a=
 
 def knobs(r, i):
     # spans that are not recording: no / late reporter, no-op ancestry, no local parent
-    return {"no_reporter": i % 5 == 0, "late_reporter": i % 5 == 1, "unsampled": i % 3 == 0}
+    return {"no_reporter": i % 5 == 0, "late_reporter": i % 5 == 1, "unsampled": i % 3 == 0, "deprecated_events": True}
 
 
 def run(v, tier, seed, replay):
     cases, impl, model = seqcheck.run(v, tier, seed, replay, "C16", ["C16"], tree_oracles=["no_panic", "closures", "tree", "exactly_once"],
-                                      wild_oracles=["no_panic", "closures"], knobs=knobs,
+                                      wild_oracles=["no_panic", "closures"], knobs=knobs, wild_knobs=knobs,
                                       n_quick=(400, 300), n_thorough=(30000, 20000),
                                       nontrivial=lambda lines, tr: any(l.split()[1] in ("withProps", "addProps", "lWithProps", "lAddProps") for l in lines))
     # the statically disabled configuration: same programs, fastrace built without `enable`
